@@ -70,6 +70,10 @@ class StmtMixin:
         if src.k == 'gen':
             self.yield_from_gen(src, node)
             return
+        if src.k == 'opq':
+            # X-NP: iterating an array yields its rows in order - handled as one bulk yield of the whole array
+            self.do_yield(src, node)
+            return
         for v in self.iter_concrete(src):
             self.do_yield(v, node)
 
@@ -145,14 +149,32 @@ class StmtMixin:
             items[ic] = v
             return
         if base.k == 'dict':
-            self.st.heap[base.t].d[key_of(idx)] = v
+            h = self.st.heap[base.t]
+            try:
+                h.d[key_of(idx)] = v
+            except Unsupported:
+                if h.d:
+                    raise Unsupported('symbolic key stored into a dictionary that also has concrete keys')
+                h.sym.append((idx, v))
             return
         if base.k == 'opq':
             return self.opq_setitem(base, idx, v, node)
         raise Unsupported(f'item store on {base.k}')
 
     def opq_setitem(self, base, idx, v, node):
-        raise Unsupported('item store on opaque value')
+        """X[key] = v on an external value: functional update of the variable that holds X (the model decides whether the
+        store is allowed on this kind of value - a store into caller-owned data is a C19 obligation)"""
+        if '__setitem__' not in self.opq_models().get(base.x or 'any', {}):
+            raise Unsupported(f'item store on opaque {base.x}')
+        new = self.opq_call(base, '__setitem__', [idx, v], {}, node)
+        tv = node.value
+        if isinstance(tv, ast.Name):
+            self.frame.env[tv.id] = new
+        elif isinstance(tv, ast.Attribute):
+            o = self.ev(tv.value)
+            self.st.heap[o.t].f[tv.attr] = new
+        else:
+            raise Unsupported('item store target')
 
     def store_slice(self, t, v):
         """bytearray slice assignment X[a:b] = v  (A-PY: replaces the slice; python semantics incl. clamping)"""
